@@ -1,7 +1,16 @@
 // C13: the real HashTable / HArray / HList (Key2 keys, int values) against an ordered association list.
-// Pre-state: K symbolic construction steps (skip | insert | remove, symbolic keys of 0..2 units incl. NUL, symbolic
-// values) on a table of concrete initial capacity CAP (0 = default constructed); then ONE operation (concrete per
-// query: -DOP=...), optionally one more insert (-DPOST=1), then every observer is compared with the model.
+// Pre-state: built through the public API by K construction steps on a table of concrete initial capacity CAP (0 = default
+// constructed).  The step CLASSES are concrete per query (PATV: 1 = insert a new key, 2 = insert an existing key again,
+// 3 = remove an existing key) so that Size()/Capacity() - which select every allocation size - are literals for CBMC;
+// WHICH key is inserted / overwritten / removed, all key contents (0..2 units, NUL included) and all values are symbolic.
+// After each step the expected (Size, Capacity) is asserted and written back (a no-op on the state, it only lets CBMC's
+// constant propagation see the literal).  Then ONE operation (-DOP=...), optionally one more insert (-DPOST=1), then the
+// observers are compared with the model.
+#include "QCommon.hpp"
+// Keep the allocation primitive out of line (the attribute is inherited by the definition in Memory.hpp) so that the engine
+// can route it through c13_alloc below.  CBMC needs a literal size at every malloc (a symbolic size turns the heap object
+// into an unbounded array: out of memory), while the library computes the size from table state.
+namespace Qentem { namespace Memory { template <typename Type_T> __attribute__((noinline)) static Type_T *Allocate(SizeT size); } }
 #include "HArray.hpp"
 #include "HList.hpp"
 #include "key2.hpp"
@@ -40,9 +49,15 @@ using namespace Qentem;
 #endif
 #ifndef K
 #define K 2
+#define PATV {1, 1, 0}
+#define SZV {1, 2, 0}
+#define CPV {2, 2, 0}
 #endif
 #ifndef K2
-#define K2 2        // construction steps of the second table (merge / assignment)
+#define K2 0        // construction steps of the second table (merge / assignment)
+#define PAT2V {0}
+#define SZ2V {0}
+#define CP2V {0}
 #endif
 #ifndef CAP
 #define CAP 2
@@ -64,6 +79,22 @@ using namespace Qentem;
 #endif
 #define MAXL (K + K2 + 2)   // model capacity (never reached: asserted)
 #define MAXS 16             // scan buffer (>= any capacity reachable here: asserted)
+
+#ifndef CAPSET
+#define CAPSET 30     // capacities a table may take in this query, as a bit set: 2 | 4 | 8 | 16
+#endif
+// Engine stub for Memory::Allocate<char>(size) (CBMC side only; the native replay runs the real one).  Same behaviour:
+// operator new(size) - but called with a literal in each branch.  A size outside CAPSET fails assertion 999.
+extern "C" char *c13_alloc(SizeT size) {
+    const SizeT unit = sizeof(SizeT) + (HLIST ? sizeof(HLItem_T<Key2>) : sizeof(HAItem_T<Key2, int>));
+    if ((CAPSET & 2) && size == unit * 2) return (char *)::operator new(unit * 2);
+    if ((CAPSET & 4) && size == unit * 4) return (char *)::operator new(unit * 4);
+    if ((CAPSET & 8) && size == unit * 8) return (char *)::operator new(unit * 8);
+    if ((CAPSET & 16) && size == unit * 16) return (char *)::operator new(unit * 16);
+    vf_assert(false, 999);
+    vf_assume(false);
+    return nullptr;
+}
 
 #if HLIST
 typedef HList<Key2> T;
@@ -132,14 +163,32 @@ static void t_insert(T &t, const MKey &k, int v) {
 #endif
 }
 
-static void build(T &t, Model &m, unsigned steps) {
-    for (unsigned s = 0; s < steps; ++s) {
-        unsigned c = vf_u8(); vf_assume(c <= 2);
-        MKey k = sym_key();
-        int  v = sym_val();
-        if (c == 1) { t_insert(t, k, v); m_put(m, k, v); }
-        else if (c == 2) { Key2 kk(k.d, k.n); t.Remove(kk); m_remove(m, k); }
-    }
+static constexpr unsigned char PAT[] = PATV, PAT2[] = PAT2V;   // step classes (K resp. K2 entries + a trailing 0)
+static constexpr unsigned      SZ[] = SZV, SZ2[] = SZ2V;       // Size() expected after each step
+static constexpr unsigned      CP[] = CPV, CP2[] = CP2V;       // Capacity() expected after each step
+
+// the table really has this Size/Capacity (asserted); writing the literal back changes nothing but CBMC's knowledge
+static inline __attribute__((always_inline)) void pin(T &t, unsigned sz, unsigned cp, bool check) {
+    if (check) vf_assert(t.Size() == sz && t.Capacity() == cp, 2);
+    vf_assume(t.Size() == sz && t.Capacity() == cp);
+    t.setSize(sz);
+    t.setCapacity(cp);
+}
+static inline __attribute__((always_inline)) void do_step(T &t, Model &m, unsigned cls, unsigned sz, unsigned cp) {
+    MKey k = sym_key();
+    int  v = sym_val();
+    const int mi = m_find(m, k);
+    if (cls == 1) { vf_assume(mi < 0); t_insert(t, k, v); m_put(m, k, v); }            // a new key
+    else if (cls == 2) { vf_assume(mi >= 0); t_insert(t, k, v); m_put(m, k, v); }      // an existing key, new value
+    else { vf_assume(mi >= 0); Key2 kk(k.d, k.n); t.Remove(kk); m_remove(m, k); }      // remove an existing key (tombstone)
+    pin(t, sz, cp, true);
+}
+static inline __attribute__((always_inline)) void build(T &t, Model &m, const unsigned char *pat, const unsigned *sz, const unsigned *cp, unsigned n) {
+    if (n > 0) do_step(t, m, pat[0], sz[0], cp[0]);
+    if (n > 1) do_step(t, m, pat[1], sz[1], cp[1]);
+    if (n > 2) do_step(t, m, pat[2], sz[2], cp[2]);
+    if (n > 3) do_step(t, m, pat[3], sz[3], cp[3]);
+    static_assert(K <= 4 && K2 <= 4, "at most 4 construction steps");
 }
 
 // indices of the live storage entries in storage (= iteration) order
@@ -261,7 +310,7 @@ extern "C" void h_op() {
     T t(SizeT(CAP));
     vf_assert(t.Capacity() >= CAP && t.Size() == 0, 1);
 #endif
-    build(t, m, K);
+    build(t, m, PAT, SZ, CP, K);
     int  sorted = 0;
     bool t_gone = false;       // t was moved from: it must be empty with no storage
 
@@ -350,7 +399,7 @@ extern "C" void h_op() {
 #else
         T u(SizeT(CAP2));
 #endif
-        build(u, mu, K2);
+        build(u, mu, PAT2, SZ2, CP2, K2);
         for (unsigned x = 0; x < mu.n; ++x) m_put(m, mu.k[x], mu.v[x]);
 #if OP == OP_MERGE_COPY
         const unsigned usz = u.Size(), ucap = u.Capacity();
@@ -436,7 +485,7 @@ extern "C" void h_op() {
 #else
         T u(SizeT(CAP2));
 #endif
-        build(u, mu, K2);
+        build(u, mu, PAT2, SZ2, CP2, K2);
 #if OP == OP_COPY_ASSIGN
         const unsigned s0 = t.Size(), c0 = t.Capacity();
         u = t;
